@@ -17,6 +17,9 @@ type WriteSet struct {
 	alloc  bool
 	why    string // reason for all
 	except []string
+	// otherAll: some reason for all is not a channel operation (a goroutine that owns storage keeps it across its
+	// own channel operations, not across calls into unknown code)
+	otherAll bool
 }
 
 func newWriteSet() *WriteSet {
@@ -31,6 +34,9 @@ func (w *WriteSet) addKeys(ks []string) {
 
 func (w *WriteSet) union(o *WriteSet) {
 	if o.all {
+		if o.otherAll {
+			w.otherAll = true
+		}
 		if !w.all {
 			w.all = true
 			w.why = o.why
@@ -81,6 +87,9 @@ func (w *WriteSet) dropTouchedExceptions() {
 }
 
 func (w *WriteSet) setAll(why string) {
+	if !strings.HasPrefix(why, "channel ") {
+		w.otherAll = true
+	}
 	if !w.all {
 		w.all = true
 		w.why = why
